@@ -291,6 +291,7 @@ class MultiFS(FS):
 
     def download(self, path, file, chunk_size=None, **options):
         # type: (Text, BinaryIO, Optional[int], **Any) -> None
+        self.check()
         fs = self._delegate_required(path)
         return fs.download(path, file, chunk_size=chunk_size, **options)
 
@@ -403,12 +404,14 @@ class MultiFS(FS):
 
     def upload(self, path, file, chunk_size=None, **options):
         # type: (Text, BinaryIO, Optional[int], **Any) -> None
+        self.check()
         self._writable_required(path).upload(
             path, file, chunk_size=chunk_size, **options
         )
 
     def writebytes(self, path, contents):
         # type: (Text, bytes) -> None
+        self.check()
         self._writable_required(path).writebytes(path, contents)
 
     def writetext(
@@ -420,6 +423,7 @@ class MultiFS(FS):
         newline="",  # type: Text
     ):
         # type: (...) -> None
+        self.check()
         write_fs = self._writable_required(path)
         return write_fs.writetext(
             path, contents, encoding=encoding, errors=errors, newline=newline
